@@ -378,6 +378,15 @@ def IsBisection {ι : Type} (key : Nat → Nat → α) (dim : Nat) : Nat → Nat
     IsBisection key dim d ((axis + 1) % dim) (2 * iterId + 1) lo ∧
     IsBisection key dim d ((axis + 1) % dim) (2 * iterId + 2) hi
 
+/-- The order laws the theorems of C03 need, restricted to a set `S` of values (for `f32`:
+the non-NaN values; IEEE-754 then gives all three).  `<` is a strict weak order on `S`
+and `<=` is its complement-converse; equality is not mentioned (`-0.0` and `0.0`). -/
+structure OrderLawsOn (S : α → Prop) : Prop where
+  le_iff : ∀ a b, S a → S b → Coord.le a b = !Coord.lt b a
+  irrefl : ∀ a, S a → Coord.lt a a = false
+  neg_trans : ∀ a b c, S a → S b → S c →
+    Coord.lt a b = true → Coord.lt c b = false → Coord.lt a c = true
+
 /-- The leaves of a tree: `(part id, members)`. -/
 def Tree.leaves {ι : Type} : Tree ι → List (Nat × List Nat)
   | .empty => []
